@@ -402,7 +402,8 @@ fn render_comments(cs: &[CommentDoc], indent: i32, opts: &RenderOpts, state: &mu
             state.swallow_next_break = true;
         } else if nls > 0 {
             state.current_line += nls;
-            state.col = 0;
+            // The cursor sits after the comment's last line, not at column 0.
+            state.col = c.text.rsplit('\n').next().map_or(0, |x| x.chars().count());
         } else {
             state.col += c.text.chars().count();
         }
